@@ -414,12 +414,18 @@ class ListAppend(OpSpec):
 
 
 def _pred_after(row, off, inc, hold, tail):
-    t = row["offset"] + (row["length"] if (hold and tail) else 0)
+    o, ln = row["offset"], (row["length"] if (hold and tail) else 0)
+    if o is NAN or ln is NAN:
+        return False  # a missing time compares false with every bound (a row of a plain sequence holding NaN does too)
+    t = o + ln
     return t >= off if inc else t > off
 
 
 def _pred_before(row, off, inc, hold, head):
-    t = row["offset"] + (row["length"] if (hold and not head) else 0)
+    o, ln = row["offset"], (row["length"] if (hold and not head) else 0)
+    if o is NAN or ln is NAN:
+        return False
+    t = o + ln
     return t <= off if inc else t < off
 
 
